@@ -27,6 +27,20 @@ def merge3(base, ours, theirs):
         return p.returncode, p.stdout.decode()
 
 
+def fuzzy(diff_text, path, head_text, rev):
+    """last resort: GNU patch with fuzz 3 on an LF copy of HEAD's file"""
+    with tempfile.TemporaryDirectory() as d:
+        full = os.path.join(d, path)
+        os.makedirs(os.path.dirname(full))
+        open(full, "w").write(head_text)
+        pf = os.path.join(d, "p.diff")
+        open(pf, "w").write(diff_text.replace("\r\n", "\n"))
+        p = subprocess.run(["patch", "-p1", "--fuzz=3", "-s"] + (["-R"] if rev else []) + ["-i", pf], cwd=d, capture_output=True)
+        if p.returncode != 0:
+            return None
+        return open(full).read()
+
+
 def udiff(path, a, b):
     lines = difflib.unified_diff(a.split("\n"), b.split("\n"), "a/" + path, "b/" + path, lineterm="", n=3)
     return "diff --git a/%s b/%s\n" % (path, path) + "\n".join(lines) + "\n"
@@ -54,9 +68,11 @@ def main():
         for path, theirs in ov.items():
             rc, merged = merge3(show(old, path), head(path), theirs)
             if rc != 0:
-                print("%-50s CONFLICT in %s" % (os.path.relpath(p, V), path))
-                bad = True
-                break
+                merged = fuzzy(text, path, head(path), rev)
+                if merged is None:
+                    print("%-50s CONFLICT in %s" % (os.path.relpath(p, V), path))
+                    bad = True
+                    break
             out += udiff(path, merged, head(path)) if rev else udiff(path, head(path), merged)
         if bad:
             continue
